@@ -19,7 +19,7 @@ INVARIANT Emit
 """
 PLAN = {
     'quick': {'Sym': '{"a","b"}', 'MaxOps': 5, 'MaxChanges': 3, 'MaxCtx': 2, 'EmitCases': 'TRUE', 'WithNoEol': 'TRUE'},
-    'thorough': {'Sym': '{"a","b"}', 'MaxOps': 7, 'MaxChanges': 3, 'MaxCtx': 3, 'EmitCases': 'TRUE', 'WithNoEol': 'TRUE'},
+    'thorough': {'Sym': '{"a","b"}', 'MaxOps': 6, 'MaxChanges': 3, 'MaxCtx': 3, 'EmitCases': 'TRUE', 'WithNoEol': 'TRUE'},
 }
 CLI_SAMPLE = {'quick': 400, 'thorough': 4000}
 KF_TOP = 'zero-context-hunk-at-top-of-file'
